@@ -666,6 +666,19 @@ func (w *world) opRestart(op kernel.Op) {
 	post := c.snapshot()
 	// (other modules, e.g. staking's historical entries, are not what the property is about)
 	if d := diffSnap(pre, post, "xibc", "aggregate"); len(d) > 0 {
+		for _, k := range d {
+			// the records that make a second receive or acknowledgement impossible did not survive
+			if strings.HasPrefix(k, "xibc:receipts/") {
+				w.rec.Violate("C01", "receipt_lost_in_restart", "export_restart", "restart of %s from its own export lost or changed the receipt %s", c.Cfg.Name, k[5:])
+				break
+			}
+		}
+		for _, k := range d {
+			if strings.HasPrefix(k, "xibc:acks/") {
+				w.rec.Violate("C05", "ack_store_monotone", "export_restart", "restart of %s from its own export lost or changed the stored acknowledgement %s", c.Cfg.Name, k[5:])
+				break
+			}
+		}
 		w.rec.Violate("C13", "export_restart_changed_state", classifyDiff(d), "restart of %s from its own export changed module state: %v", c.Cfg.Name, trunc(d, 6))
 	}
 	if d := balDelta(balPre, w.balances(c)); len(d) > 0 {
